@@ -522,7 +522,6 @@ def run_cfg(arg):
     # crashes CPython 3.12.1 ("deallocated BytesIO object has exported
     # buffers").  The cycle is harmless while uncollected: no cyclic GC in
     # these short-lived enumeration processes.
-    gc.disable()
     _no_final_gc()
     cfg, sigs, lines = arg
     base = Run(cfg, None, lines).run()
@@ -538,6 +537,9 @@ def run_cfg(arg):
         for k in range(base['points'] + 1):
             r = Run(cfg, (k, int(sig)), lines).run()
             stats['runs'] += 1
+            if stats['runs'] % 250 == 0:
+                import gc
+                gc.collect()
             v = chk(cfg, r, (k, int(sig)))
             if not v and (int(sig) != int(SOFT) or (
                     r['inject_at'] and r['inject_at'][1] == 'task')):
